@@ -514,4 +514,26 @@ theorem sumReserved_eq (fs : FeeSchedule) (acct : Account) (db : List Order) (rs
       · exact absurd hyk hk
       · exact hp y hy' hyk
 
+
+/-- accounts only move up through the known versions; a later (known) version never needs a larger witness than an
+    earlier one (regenerated `knownAccountVersions`, `taprootVersions`, witness sizes) -/
+theorem traderWitness_upgrade {v w : Nat} (hv : v ∈ knownAccountVersions) (hw : w ∈ knownAccountVersions)
+    (h : v ≤ w) : traderWitness w ≤ traderWitness v := by
+  have key : ∀ a ∈ knownAccountVersions, ∀ b ∈ knownAccountVersions, a ≤ b → traderWitness b ≤ traderWitness a := by
+    decide
+  exact key v hv w hw h
+
+/-- the legacy witness is the largest, so a reserve computed for a legacy account covers every later version -/
+theorem traderWitness_le_legacy (w : Nat) : traderWitness w ≤ traderWitness 0 := by
+  rcases traderWitness_cases w with h | h <;> rw [h] <;> decide
+
+/-- an active order whose `ReservedValue` does not panic has a non-zero minimum match -/
+theorem min_pos_of_not_panic (fs : FeeSchedule) (o : Order) (ver : Nat) (hna : archived o.state = false)
+    (h : orderReservedValue fs o ver ≠ .panic) : 0 < o.minUnitsMatch := by
+  by_contra h0
+  have h0' : o.minUnitsMatch = 0 := by omega
+  apply h
+  unfold orderReservedValue reservedValue toSatoshis
+  simp [hna, h0']
+
 end Pool.C11
